@@ -182,6 +182,12 @@ func parentCtx(kind string) (ctx context.Context, end func(), cleanup func()) {
 		dl := time.Now().Add(100 * time.Hour)
 		c, cancel := context.WithDeadline(context.Background(), dl)
 		return c, func() { time.Sleep(time.Until(dl)) }, cancel
+	case "already-ended":
+		// Run is handed a context that has ended before it is called: everything still starts, is
+		// cancelled at once and winds down in order
+		c, cancel := context.WithCancel(context.Background())
+		cancel()
+		return c, func() {}, cancel
 	case "cause":
 		c, cancel := context.WithCancelCause(context.Background())
 		return c, func() { cancel(errors.New("custom cause of the caller")) }, func() { cancel(nil) }
@@ -230,7 +236,7 @@ func TestCheck(t *testing.T) {
 	rec = mon.Open("C12")
 	defer rec.Close()
 	rec.Note("rule", "a case is one topology run against the real managers in a synctest bubble: 0-4 runners drawn from {nil, error, context.Canceled, wrapped Canceled, block-until-cancel (returning nil / an error / ctx.Err), gate-released (nil / error)} finishing in a seeded order, parent context cancelled or not; for the closer manager additionally 0-4 closers of the four accepted types with seeded durations and errors, grace period unset / generous / exceeded, Close before / during / after Run (repeated, concurrent), AddCloser during the run and AddCloser parked at its decision point while Run enters the closing phase, unsupported closer types. The sequence-stamped event log is judged offline. Non-trivial = at least one runner or closer; distinct = distinct topology description.")
-	rec.Note("require", []string{"runner.first_return_cancels_others", "runner.parent_cancel", "closer.fatal_fired", "closer.fatal_not_fired", "closer.close_during_run", "closer.close_before_run", "closer.concurrent_close", "closer.addcloser_during_run", "placed.addcloser_parked", "closer.unsupported_type_rejected", "join.errors_checked", "closer.addcloser_from_a_running_closer_refused", "parent_end.cancel", "parent_end.deadline", "parent_end.cause", "racing.addcloser_accepted", "racing.addcloser_rejected", "shared_slice.managers_start_their_own_runners"})
+	rec.Note("require", []string{"runner.first_return_cancels_others", "runner.parent_cancel", "closer.fatal_fired", "closer.fatal_not_fired", "closer.close_during_run", "closer.close_before_run", "closer.concurrent_close", "closer.addcloser_during_run", "placed.addcloser_parked", "closer.unsupported_type_rejected", "join.errors_checked", "closer.addcloser_from_a_running_closer_refused", "parent_end.cancel", "parent_end.deadline", "parent_end.cause", "parent_end.already-ended", "racing.addcloser_accepted", "racing.addcloser_rejected", "shared_slice.managers_start_their_own_runners"})
 	ps := plans()
 	rec.Planned(len(ps))
 	for idx, pl := range ps {
@@ -382,7 +388,7 @@ func runRunner(t *testing.T, idx int, rng *mon.RNG) {
 	parentCancel := rng.Chance(1, 4)
 	lateAdd := rng.Chance(1, 3)
 	order := rng.Intn(1 << 16)
-	parentKind := rng.PickStr("cancel", "deadline", "cause")
+	parentKind := rng.PickStr("cancel", "cancel", "deadline", "cause", "already-ended")
 	w := &world{idx: idx, mode: "runner", desc: fmt.Sprintf("runners=%v parentCancel=%v(%s) order=%d", ds, parentCancel, parentKind, order)}
 	rec.Begin(idx, w.mode+" "+w.desc)
 	res := mon.Bubble(t, func() {
@@ -402,6 +408,10 @@ func runRunner(t *testing.T, idx int, rng *mon.RNG) {
 		}
 		ctx, endParent, cancel := parentCtx(parentKind)
 		defer cancel()
+		if parentKind == "already-ended" {
+			w.ev("parentcancel", 0, nil)
+			rec.Count("parent_end.already-ended", 1)
+		}
 		runDone := make(chan struct{})
 		var runErr error
 		go func() {
@@ -464,8 +474,8 @@ func runRunner(t *testing.T, idx int, rng *mon.RNG) {
 				}
 			}
 		}
-		checkDone(false)
-		parentCancelled := false
+		checkDone(parentKind == "already-ended")
+		parentCancelled := parentKind == "already-ended"
 		if !firstReturn() {
 			// everything still running is gate-* or untilcancel-*: release gates in seeded order, or cancel the parent
 			var gated []int
@@ -638,7 +648,7 @@ func runCloser(t *testing.T, idx int, rng *mon.RNG, placed bool) {
 		graceMode = rng.PickStr("nil", "generous")
 	}
 	parentCancel := rng.Chance(1, 4)
-	parentKind := rng.PickStr("cancel", "deadline", "cause")
+	parentKind := rng.PickStr("cancel", "cancel", "deadline", "cause", "already-ended")
 	lateCloser := !placed && rng.Chance(1, 3)
 	order := rng.Intn(1 << 16)
 	mode := "closer"
@@ -676,6 +686,10 @@ func runCloser(t *testing.T, idx int, rng *mon.RNG, placed bool) {
 		}
 		ctx, endParent, cancel := parentCtx(parentKind)
 		defer cancel()
+		if parentKind == "already-ended" {
+			w.ev("parentcancel", 0, nil)
+			rec.Count("parent_end.already-ended", 1)
+		}
 
 		var closeMu sync.Mutex
 		var closeErrs []error
@@ -798,7 +812,7 @@ func runCloser(t *testing.T, idx int, rng *mon.RNG, placed bool) {
 			placedResume = resume
 		}
 		released := map[int]bool{}
-		parentCancelled := false
+		parentCancelled := parentKind == "already-ended"
 		closedDuring := false
 		if !runnersAllReturned() || nr == 0 {
 			switch {
